@@ -24,7 +24,7 @@ EXPLANATION = (
     ' (ANNOTATION-PERMISSIVE) a written `fn` type resolves to the wildcard purity, so a correct `fn` annotation on a pure function value is not rejected.'
     ' (INFERENCE) no arm of the checker answers a still-unknown type with an error; (SAME-NODE return-type probe) whether a return type follows `->` is decided independently of the newline mode (both known findings).'
 )
-UNDECIDED = "the acceptance clause: that erasing a correct annotation keeps the program accepted is a completeness property of inference."
+UNDECIDED = "completeness of inference in general (erasing a correct annotation keeps the program accepted): only the structural necessary conditions INFERENCE, ANNOTATION-INERT (checker) and the return-type probe are decided."
 
 MANIFEST = dict(
     text=EXPLANATION + " Not decided: " + UNDECIDED,
